@@ -617,7 +617,7 @@ func (m *bbMonitor) judgeCall(no int, kind string, finished bool) {
 
 // ---------- running one scenario ----------
 
-const bbWatchdog = 90 * time.Second
+const bbWatchdog = 150 * time.Second
 
 // guarded runs f in a goroutine under the watchdog; returns whether it finished and a panic message.
 func guarded(f func()) (finished bool, panicMsg string) {
@@ -649,7 +649,7 @@ func newBBClient(sc *bbScenario, r *bbRun, hcInterval time.Duration) (*client.HT
 		conf := client.DefaultConfig()
 		conf.Endpoints = append([]string{r.nodes[sc.InitPri].url}, secs...)
 		conf.SnapshotStoreURL = r.store.URL
-		conf.Timeout = 20 * time.Second
+		conf.Timeout = 60 * time.Second
 		conf.ReadPreference = client.ReadPref(sc.Pref)
 		conf.MaxRetries = sc.MaxRetries
 		conf.EnableTopologyDiscovery = sc.Discovery
@@ -673,7 +673,7 @@ func newBBClient(sc *bbScenario, r *bbRun, hcInterval time.Duration) (*client.HT
 			client.SetHasherFunction(hashing.NewSha256Hasher),
 		}
 		if sc.ClientKind == "options-custom-http-client" {
-			opts = append(opts, client.SetHttpClient(&http.Client{Timeout: 20 * time.Second, Transport: &http.Transport{MaxIdleConnsPerHost: 4}}))
+			opts = append(opts, client.SetHttpClient(&http.Client{Timeout: 60 * time.Second, Transport: &http.Transport{MaxIdleConnsPerHost: 4}}))
 		}
 		return client.NewHTTPClient(opts...)
 	}
@@ -777,6 +777,26 @@ func runBBScenario(c *lib.Ctx, sc *bbScenario, agg *wbAgg) {
 		}
 		if err != nil {
 			agg.count("bb_calls_failed", 1)
+			// information only (not a clause of C20): a call that failed without sending anything
+			// although every node of the scenario was up and answering normally at that moment --
+			// the usual cause is callAny marking endpoints dead on 4xx answers
+			r.mu.Lock()
+			sent, allUp := 0, true
+			for _, e := range r.log {
+				if e.Call == no {
+					sent++
+				}
+			}
+			for _, n := range r.nodes {
+				if n.down || n.api != "ok" || n.shards != "ok" {
+					allUp = false
+				}
+			}
+			r.mu.Unlock()
+			if sent == 0 && allUp {
+				agg.count("bb_info_calls_failed_without_any_request_while_all_nodes_healthy", 1)
+				agg.see("bb_info_failed_without_request", st.Call+": "+firstLine(err.Error()))
+			}
 		} else {
 			agg.count("bb_calls_succeeded", 1)
 		}
@@ -816,7 +836,7 @@ func firstLine(s string) string {
 var bbShapes = []string{
 	"steady", "wrong-initial-primary", "leader-change-redirect", "leader-fail-down", "leader-fail-sick",
 	"faults", "shards-4xx-at-start", "shards-4xx-after-leader-death", "shards-4xx-after-read-failures",
-	"shards-mixed", "member-removed", "retries",
+	"shards-mixed", "member-removed", "retries", "read-4xx-then-write",
 }
 
 var readCalls = []string{"Membership", "MembershipDigest", "Incremental"}
@@ -1006,6 +1026,19 @@ func genBBScenario(r *lib.Rand, id string, shape string) *bbScenario {
 		removed := otherThan(sc.Leader)
 		sc.Members = without(sc.Members, removed) // the servers' view from the start
 		steady(r.Range(4, 9))
+	case "read-4xx-then-write":
+		// every node rejects one read with a 4xx (e.g. a malformed query), then all is well again;
+		// safety and termination clauses only (what the client's dead marks do to the following
+		// calls is recorded as information)
+		steady(r.Range(1, 2))
+		for i := 0; i < sc.Nodes; i++ {
+			sc.Steps = append(sc.Steps, bbStep{Op: "set", Node: i, Field: "api", Val: "4xx"})
+		}
+		sc.Steps = append(sc.Steps, call(readCalls[r.Intn(3)]))
+		for i := 0; i < sc.Nodes; i++ {
+			sc.Steps = append(sc.Steps, bbStep{Op: "set", Node: i, Field: "api", Val: "ok"})
+		}
+		sc.Steps = append(sc.Steps, call(writeCalls[r.Intn(2)]), call(readCalls[r.Intn(3)]), call(writeCalls[r.Intn(2)]))
 	case "retries":
 		sc.MaxRetries = 1
 		// the retrier sleeps 1 s per retry: mostly clients that can run in parallel
@@ -1039,7 +1072,7 @@ func bbSig(sc *bbScenario) string {
 }
 
 func runBlackBox(c *lib.Ctx) {
-	n := c.Q(240, 5000)
+	n := c.Q(260, 5200)
 	r0 := c.Rand("blackbox")
 	scs := make([]*bbScenario, n)
 	for i := range scs {
